@@ -56,6 +56,23 @@ func (c *octx) account() {
 			}
 		}
 	}
+	if c.sc.Ctx.Impl != "" && (o.Faults["cancel_in_cb"]+o.Faults["precancelled"]+o.Faults["cancel_at_time"]+o.Faults["cancel_async"] > 0 || strings.HasSuffix(c.sc.Ctx.Kind, "deadline")) {
+		o.Faults["ctx_impl_"+c.sc.Ctx.Impl]++
+	}
+	if c.sc.Ctx.Kind == "cancel" && c.sc.Ctx.DeadlineUs > 0 {
+		o.Probes["cancelled_context_also_carries_deadline"]++
+	}
+	for _, n := range c.sc.Nodes {
+		if n.Kind == "flow" && n.config().Retries > 1 {
+			o.Probes["flow_with_own_retry_budget"]++
+		}
+		for _, st := range n.Settings {
+			if st.Plain {
+				o.Probes["option_passed_as_plain_func"]++
+				break
+			}
+		}
+	}
 	if c.sc.Ctx.Kind == "deadline" && len(c.obs.Runs) > 0 {
 		if e := c.obs.Runs[len(c.obs.Runs)-1].End; e != nil && e.T >= c.sc.Ctx.DeadlineUs*1000 {
 			o.Faults["deadline"]++
